@@ -198,6 +198,15 @@ impl Column {
         Ok((block_header, block.slice(..block.len() - BLOCK_META_SIZE)))
     }
 
+    /// Replay hook for the verification framework in /verif.
+    #[cfg(feature = "verif_hooks")]
+    pub fn verif_decode_block_meta(
+        block: &[u8],
+        do_verify_checksum: bool,
+    ) -> StorageResult<BlockMeta> {
+        Self::decode_block_meta(block, do_verify_checksum)
+    }
+
     /// Decode the meta at the end of `block` and, if `do_verify_checksum` is set, verify the
     /// checksum of the block against it.
     fn decode_block_meta(block: &[u8], do_verify_checksum: bool) -> StorageResult<BlockMeta> {
